@@ -347,6 +347,34 @@ CHECKS = {
              "computed check of the regenerated translation table + differential correspondence and ABI-decoding judge on a real "
              "adaptor fed by in-process WebSocket endpoints",
    ref="5/C18"),
+ "C20": dict(
+   text="Coq theorems. (1) Models/Schnorr.v (schnorr.Sign / Verify next to RFC 8032 verification as crypto/ed25519 performs it, over "
+        "an abstract module with a generator; S is the 32-byte little-endian integer on the wire): a signature made by Sign "
+        "verifies under both verifiers for every key, nonce and message (C20_sign_verifies); the standard verifier = the bundled "
+        "equation + the range check S < l, so on canonical S they agree in both directions (C20_interop); the verifier WITHOUT "
+        "the range check accepts S + l, an altered signature that the standard verifier rejects (C20_old_verifier_malleable - "
+        "reproduced on the real code and repaired, fix: commit); with the check an altered S is rejected, an altered message only "
+        "passes on a challenge collision, an altered key only if R + hA coincides (C20_altered_*). (2) Models/ScLimbs.v + "
+        "Gen/Ref10Sc.v - the limb programs scMulAdd, scMul, scAdd, scSub, scReduce REGENERATED from scalar.go on every run "
+        "(translate/sc2coq.py): for ALL operand limbs the final limbs stand for an integer congruent modulo l to a*b+c, a*b, "
+        "a+c, a-c and to the 512-bit input (C20_scMulAdd .. C20_scReduce: carries preserve the integer exactly, every fold's six "
+        "constants express 2^252 modulo l, the initial products are the polynomial product by ring), and no intermediate value "
+        "leaves the int64 range, so Go's wrapping arithmetic computes exactly that (C20_no_overflow_*: interval analysis proved "
+        "sound against an explicit wrap-after-every-operation semantics). Tie: the real scMulAdd/scMul/scAdd/scSub/scReduce "
+        "(verif hooks) on operands 0, 1, l-1, l, l+1, 2^252, 2^255-19, 2^256-1, 15l, random reduced and unreduced, and 64-byte "
+        "inputs up to 2^512-1, compared with the extracted limb model (exact integer of the final limbs) and with math/big; the "
+        "public Scalar API (Add, Sub, Mul, Neg, Inv, Div, SetBytes, marshal round trip) against math/big; schnorr.Sign / Verify "
+        "versus crypto/ed25519 Sign / Verify for keys derived from seeds (both directions, messages of 0..5000 bytes), every "
+        "single-bit flip of signature and public key (thorough: all 512 / 256), message flips and extension, and S replaced by "
+        "S + j*l (all j that fit) or bit-flipped on signatures made with a known nonce, where the model decides both verifiers.",
+   note=TB + "partial: the curve arithmetic (fe.go, ge.go), point encoding / decoding and SHA-512 are not modelled (the module and "
+        "the challenge are parameters; the curve is exercised only through the interop runs); that the limb programs' result is "
+        "the CANONICAL representative (< l, exact byte packing by the store statements) and that the load statements split the "
+        "operand bytes into the limbs the model assumes are compared on the directed operands, not proved.",
+   technique="Coq proof (abstract-module algebra for the signatures; limb programs generated from the Go source, value "
+             "preservation modulo l by induction over the program, ring for the initial products, verified interval analysis "
+             "against wrapping semantics) + differential correspondence with the real routines, math/big and crypto/ed25519",
+   ref="5/C20"),
  "C15": dict(
    text="Coq theorems over the Gallina model of writeTo/readFrom (Models/Framing.v) where a connection is an arbitrary list of "
         "chunks: for every list of payloads of 1..2^20 bytes and EVERY chunking of the concatenated frames the reader returns "
